@@ -281,9 +281,8 @@ func (fc *FuncCtx) execCall0(fr *Frame, st *State, site ssa.Instruction, c *ssa.
 						continue
 					}
 				}
-				dot := strings.LastIndex(lock, ".")
-				if lt := fc.eng.lookupType(fnPkgPath(fr.fn), lock[:dot]); lt != nil {
-					fc.oblige(fr, st, "guard.call."+short, "", fc.foreignHeld(st, lt, lock[dot+1:]), pos, short+" calls methods of its argument that touch fields guarded by "+lock+" without locking: the caller holds that lock")
+				if lt, lf, lname := fc.eng.resolveForeignLock(lock); lt != nil {
+					fc.oblige(fr, st, "guard.call."+short, "", fc.foreignHeld(st, lt, lf), pos, short+" calls methods of its argument that touch fields guarded by "+lname+" without locking: the caller holds that lock")
 				}
 			}
 		}
@@ -349,9 +348,8 @@ func (fc *FuncCtx) execCall0(fr *Frame, st *State, site ssa.Instruction, c *ssa.
 	if fc.guardMode && fc.guardAcc != nil {
 		for pi, lock := range fc.guardAcc[fn] {
 			if pi < 0 {
-				dot := strings.LastIndex(lock, ".")
-				if lt := fc.eng.lookupType(fnPkgPath(fn), lock[:dot]); lt != nil {
-					fc.oblige(fr, st, "guard.call."+fn.Name(), "", fc.foreignHeld(st, lt, lock[dot+1:]), pos, fn.Name()+" touches fields guarded by "+lock+" without locking: its caller holds that lock")
+				if lt, lf, lname := fc.eng.resolveForeignLock(lock); lt != nil {
+					fc.oblige(fr, st, "guard.call."+fn.Name(), "", fc.foreignHeld(st, lt, lf), pos, fn.Name()+" touches fields guarded by "+lname+" without locking: its caller holds that lock")
 				}
 				continue
 			}
